@@ -1,7 +1,8 @@
 (* C17 — the bundled country and bank data are internally consistent.
    The predicates are Spec/RegistrySpec.v; they are evaluated on whatever data the tree bundles now. *)
-From Schwifty Require Import Lib.Base Lib.Lit Model.Data Spec.Iso13616 Spec.Iso9362 Spec.RegistrySpec.
-From Schwifty Require Import Gen.Env Gen.IbanData Gen.Banks.
+From Schwifty Require Import Lib.Base Lib.Lit Model.Clean Model.Data Model.Iban Model.Bban Model.Lookup Spec.Iso13616 Spec.Iso9362 Spec.RegistrySpec.
+From Schwifty Require Import Proofs.CleanFacts Proofs.IbanFacts Proofs.IbanTheorems Proofs.BankFacts Proofs.GenObligations.
+From Schwifty Require Import Gen.Env Gen.IbanData Gen.IbanCfg Gen.Banks.
 From Coq Require Import String.
 
 Theorem C17_countries : forallb wf_country the_table = true /\ no_dup_countries the_table = true.
@@ -17,6 +18,52 @@ Proof. intros r H. pose proof (proj1 C17_countries) as P. rewrite forallb_forall
 Corollary C17_bank : forall en, In en the_banks -> wf_bank the_table iso3166 en = true.
 Proof. intros en H. pose proof C17_banks as P. rewrite forallb_forall in P. exact (P en H). Qed.
 
+
+(* ---- consequently: every listed bank (with a bank code) occurs in a valid IBAN and is found again from it --------- *)
+Definition bank_occurs (en : entry) : bool :=
+  match e_code en with
+  | [] => true
+  | code =>
+    match find_row the_table (e_cc en) with
+    | Some r =>
+      match witness_bban r code with
+      | Some b => conforms_row r b
+                  && match bban_lookup_key the_table (e_cc en) b with Ok k => text_eqb k code | _ => false end
+                  && Lookup.nonempty (e_cc en)
+      | None => false
+      end
+    | None => false
+    end
+  end.
+(* the witness BBAN (filler characters plus the code in the bank-identifying field) is checked for every entry *)
+Lemma C17_occurs_obl : forallb bank_occurs the_banks = true.
+Proof. vm_cast_no_check (eq_refl true). Qed.
+
+Theorem C17_every_bank : forall en, In en the_banks -> e_code en <> [] ->
+  exists r b, find_row the_table (e_cc en) = Some r /\ conforms_row r b = true
+    /\ bban_lookup_key the_table (e_cc en) b = Ok (e_code en)
+    /\ (exists x, bban_bank the_table (bank_code_entries the_banks) (e_cc en) b = Ok (Some x)
+                  /\ e_code x = e_code en /\ e_cc x = e_cc en /\ In x the_banks)
+    /\ (forall national,
+          iban_from_bban the_env the_iban_cfg the_table national (e_cc en) b false false
+            = Ok (e_cc en ++ iso_check_digits (e_cc en) b ++ b)
+          /\ iso_ok the_table (e_cc en ++ iso_check_digits (e_cc en) b ++ b) = true).
+Proof.
+  intros en Hin Hne. pose proof C17_occurs_obl as O. rewrite forallb_forall in O. specialize (O en Hin).
+  unfold bank_occurs in O. destruct (e_code en) as [|k0 code'] eqn:Ecode; [congruence|].
+  destruct (find_row the_table (e_cc en)) as [r|] eqn:Er; [|discriminate].
+  destruct (witness_bban r (k0 :: code')) as [b|]; [|discriminate].
+  apply andb_true_iff in O as [O Hcc]. apply andb_true_iff in O as [Hconf Hkey].
+  destruct (bban_lookup_key the_table (e_cc en) b) as [k| |] eqn:Ek; try discriminate.
+  apply Proofs.CleanFacts.text_eqb_eq in Hkey. subst k.
+  exists r, b. split; [reflexivity|]. split; [exact Hconf|]. split; [exact Ek|]. split.
+  - apply (found_again the_table the_banks (e_cc en) b (k0 :: code') en Hin eq_refl Ecode); [|discriminate|exact Ek].
+    destruct (e_cc en); [discriminate|discriminate].
+  - intro national. exact (from_bban_valid the_env the_iban_cfg the_table national env_obl env_alpha_obl cfg_obl table_obl
+                             (e_cc en) b r Er Hconf).
+Qed.
+
+Print Assumptions C17_every_bank.
 Print Assumptions C17_countries.
 Print Assumptions C17_banks.
 
